@@ -9,10 +9,16 @@ tie    : * translator (every run)
            the translator's summaries) predicts which answers differ from a fresh value;
            compared with the observed "value changed" flags
          * the exemptions of translate/fields_C06.json are re-validated dynamically
+         * round 3: kernel write sets / call-site provenance / constructor aliases (tables of
+           gen_C06.py, theorems kernel_calls_clean, ctor_aliases_unedited) validated by watching
+           every compiled kernel for the whole run (harness/c06_wide.py: KernelWatch) and
+           compared with the compiled model (driver requests kclean / kwritten / ctorclean)
 search : for every class spec (shared with C01): snapshot (deep copy) every cached value,
          every array field and every caller-supplied input, run one query, re-query
          everything: any change is an interference; constructors of derived objects on a
-         shared ClimateData / on caller arrays; public functions taking arrays.
+         shared ClimateData / on caller arrays; public functions taking arrays; every public
+         class / function found by inspecting the package, float64/float32 x C/F/strided/read-only
+         caller arrays, all zero-argument methods incl. mutators (harness/c06_wide.py).
 """
 import contextlib
 import copy
